@@ -515,6 +515,10 @@ def handle (toks : List String) : String :=
   | "fshist" :: _ => handleFs toks
   | "match" :: rest => handleMatch rest
   | "cmpstats" :: rest => handleCmp rest
+  | "meanrow" :: rest =>
+    match parseGrid rest with
+    | some a => showORat (meanRow a.toList)
+    | none => "bad-op"
   | "pstats" :: rest => handlePStats rest
   | "datawin" :: rest => handleDataWin rest
   | "convert" :: rest => handleConvert rest
